@@ -286,12 +286,42 @@ def group_edit(rnd, spec):
     return {"op": "group", "changes": changes}
 
 
-KINDS = {"num": num_edit, "link": link_edit, "list_assign": list_assign_edit, "list_mut": list_mut_edit, "starts": starts_edit,
+def fill_empty_step_edit(rnd, spec):
+    """give its first job(s) to a step whose job list is empty, preferably a job not yet used by the patterns of that step"""
+    O = spec["objects"]
+    empties = [n for n in names_of(spec, "UsageJourneyStep") if not O[n]["params"]["jobs"][1]]
+    jobs = names_of(spec, "Job")
+    if not empties or not jobs:
+        return None
+    allups = names_of(spec, "UsagePattern")
+    ups_of = lambda st_: [u for u in allups if st_ in O[O[u]["params"]["usage_journey"][1]]["params"]["uj_steps"][1]]
+    # prefer an empty step whose patterns already have other jobs (otherwise the edit falls under known finding F3)
+    good = [e for e in empties if ups_of(e) and all(gen.jobs_of_up(spec, u) for u in ups_of(e))]
+    st = rnd.choice(good or empties)
+    ups = ups_of(st)
+    nets = {O[u]["params"]["network"][1] for u in ups}
+    nets_of_job = lambda j_: {O[u]["params"]["network"][1] for u in allups if j_ in gen.jobs_of_up(spec, u)}
+    # prefer a job that is not yet on the network(s) of the step's patterns
+    fresh = [j for j in jobs if not (nets_of_job(j) & nets)] or [j for j in jobs if j not in {x for u in ups for x in gen.jobs_of_up(spec, u)}] or jobs
+    j = rnd.choice(fresh)
+    m = rnd.choice(["append", "iadd", "assign", "insert"])
+    if m == "assign":
+        return {"op": "set", "obj": st, "attr": "jobs", "value": ["refs", [j]]}
+    args = {"append": [j], "iadd": [[j]], "insert": [0, j]}[m]
+    return {"op": "list", "obj": st, "attr": "jobs", "method": m, "args": args}
+
+
+KINDS = {"fill_empty_step": fill_empty_step_edit, "num": num_edit, "link": link_edit, "list_assign": list_assign_edit, "list_mut": list_mut_edit, "starts": starts_edit,
          "server_type": server_type_edit, "group": group_edit}
-DEFAULT_MIX = ["num", "num", "num", "link", "link", "list_assign", "list_mut", "list_mut", "starts", "server_type", "group"]
+DEFAULT_MIX = ["num", "num", "num", "link", "link", "list_assign", "list_mut", "list_mut", "starts", "server_type", "group", "fill_empty_step"]
 
 
 def rand_edit(rnd, spec, mix=None):
+    if mix is None and rnd.random() < 0.12:
+        e = fill_empty_step_edit(rnd, spec)
+        if e is not None:
+            e["kind"] = "fill_empty_step"
+            return e
     for _ in range(20):
         kind = rnd.choice(mix or DEFAULT_MIX)
         e = KINDS[kind](rnd, spec)
